@@ -50,7 +50,7 @@ def compact (s : State Float) : State Float :=
 
 partial def solveLoop (strategy : Nat) (eps : Float) (fuel : Nat) (s : State Float) (counter it : Nat) :
     State Float × Bool × Nat :=
-  if fuel == 0 then (s, false, it) else
+  if fuel == 0 then (compact s.unshrink, false, it) else
   let (evs, next) := solveIter strategy eps s counter
   match next with
   | none => (compact ((evs.getLast?.map (·.2)).getD s), true, it)
